@@ -443,7 +443,6 @@ func stateFuncTargets(c *Ctx, fn *ssa.Function) []*ssa.Function {
 	return out
 }
 
-
 func ruleC15Wrappers(c *Ctx, r *R) {
 	for _, name := range []string{"container/xheap.Heap.Iterate", "container/xheap.PriorityQueue.Iterate", "container/deque.Deque.Iterate"} {
 		fn := c.fn(name)
